@@ -67,9 +67,17 @@ CLAIMED = {
                  "(c) lemmas over that closed form in mixed-radix form: every in-range bin lies inside the buffer / data part of the stream, two "
                  "different bins never share an element (byte ranges disjoint), a row of tangential positions is contiguous - hence a value written "
                  "through one access path is what any other path reads and no other bin changes, for every access path that addresses rows through "
-                 "these two functions; (d) Interfile header reader: the re-ordering loop of find_segment_sequence (statement kernel, loop contract, ghost rank) attaches to every segment number the min/max ring difference and the number of axial positions that the header gave at that segment's position in the stream, each written once inside the vectors' index range. Parametric: numbers of views / tangential positions / bytes per element are constants per job. Not decided: the "
-                 "get_/set_ viewgram / sinogram / segment / RelatedViewgrams code itself, on-disk number type and byte order, the rest of the Interfile "
-                 "header round trip (keyword parsing, the two std::sort calls of find_segment_sequence: assumed), flush visibility to a second reader."),
+                 "these two functions; (d) Interfile header reader: the re-ordering loop of find_segment_sequence (statement kernel, loop contract, ghost rank) attaches to every segment number the min/max ring difference and the number of axial positions that the header gave at that segment's position in the stream, each written once inside the vectors' index range. (e) access paths, statement kernels using get_index/get_offset by contract: ProjDataInMemory::set_viewgram/get_viewgram/set_sinogram/"
+                 "get_sinogram and ProjDataFromStream::set_bin_value/set_viewgram/set_sinogram/set_segment(by sinogram)/set_segment(by view), both storage "
+                 "orders, row loops under loop contracts, buffer/stream projected onto a ghost element: an element is written at most once per call, a written "
+                 "element is the closed-form element of a bin OF THE WRITTEN OBJECT and receives that bin's value, every bin of the object is written "
+                 "(so by (c) no other bin changes); (f) every ProjDataFromStream write call that returns normally has flushed everything it wrote (ghost "
+                 "dirty flag; seek/write failures and exceptions nondeterministic) - 'visible to an independent reader as soon as each write call returns'; "
+                 "an out-of-range single bin writes nothing. Parametric: numbers of views / tangential positions / bytes per element are constants per job. "
+                 "Not decided: ProjDataFromStream read paths, in-memory segment paths, RelatedViewgrams/fill (loops over the above), order inside the one "
+                 "block of set_segment(by view) in view order, on-disk number type and byte order (write_data/read_data are stubs), the rest of the Interfile "
+                 "header round trip (keyword parsing, the two std::sort calls of find_segment_sequence: assumed), that a flushed fstream is visible to "
+                 "another process (OS behaviour; exercised natively by the replay driver)."),
         "note": ("trusted: cbmc 6.11.0 + kissat; at most 5 segments and 3 TOF bins per proof; segment_sequence/timing_poss_sequence are permutations and "
                  "offset_3d_data is one TOF block (constructors, assumed); the equality of the distributed closed form (verified against the code) and "
                  "the mixed-radix form (used by the lemmas) is distributivity of integer multiplication: discharged by CBMC for power-of-two sizes only, "
@@ -103,7 +111,10 @@ CLAIMED = {
                  "subset's residue class (loop contracts, unbounded in views/segments; parametric in num_subsets), never once per TOF bin; "
                  "(d) every view lies in exactly one subset; (e) get_subset_num returns a subset in range in every state reachable after "
                  "set_up (also randomised order and any start sub-iteration) and, non-randomised, two different sub-iterations of one full "
-                 "iteration use different subsets for any start subset. All symmetry switches symbolic. Not decided: the 'balanced' report, "
+                 "iteration use different subsets for any start subset. (f) actual_subsets_are_approximately_balanced: the counting loops add to the entry of subset s, exactly once and with "
+                 "weight num_related, every view-segment that find_basic_vs_nums_in_subset gives to subset s and nothing with another weight (three nested "
+                 "loop contracts); the verdict loop returns true only if every entry equals entry 0 and false only with a subset that differs from entry 0. "
+                 "All symmetry switches symbolic. Not decided: that an entry is the sum of its contributions (read from the single '+='), "
                  "that the driver passes the value on, other symmetry classes."),
         "note": ("trusted: cbmc 6.11.0 + kissat; SYM_VALID as established by the constructor (read from source); view range [0,num_views), "
                  "symmetric segment range; randomly_permute_subset_order delivers a permutation (assumed); std::vector modelled by "
